@@ -7,7 +7,7 @@ names = re.findall(r'^#print axioms (\S+)\s*$', s, re.M)
 s = re.sub(r'^#print axioms \S+\s*\n', '', s, flags=re.M)
 q = []
 for n in names:
-    q.append(n if n.startswith(ns + '.') else ns + '.' + n)
+    q.append(n if (n.startswith(ns + '.') or n.startswith('Bexpr.')) else ns + '.' + n)
 s = s.rstrip() + '\n\n' + ''.join('#print axioms %s\n' % n for n in dict.fromkeys(q))
 open(path, 'w').write(s)
 print(path, len(q), 'theorems')
